@@ -276,6 +276,18 @@ def run(cx: Cx):
     else:
         cx.violation('R-SHARED', mod.name, 'module-library-is-a-fresh-TagLibrary', "the module-level library is not a TagLibrary() of its own",
                      where=mod.relpath)
+    # a name reads as a tag exactly when it was added: attribute lookup on a library is the plain lookup in the instance dictionary
+    # (and the class), with no fallback hook that answers for other spellings
+    tl = cx.prog.cls(TAGS + 'TagLibrary') if 'TAGS' in globals() else None
+    if tl is None:
+        tl = [c for c in cx.prog.classes.values() if c.name == 'TagLibrary'][0]
+    hooks = [m for m in ('__getattr__', '__getattribute__', '__setattr__', '__delattr__', '__dir__') if any(m in c.methods for c in cx.prog.mro(tl))]
+    if hooks:
+        cx.violation('R-NS', tl.qualname, 'library-lookup-is-the-instance-dictionary',
+                     f"{tl.qualname} defines {hooks}: reading a name that was never added can now answer with an id (and answer differently "
+                     f"once that name is added), so name -> id is no longer the inverse of id -> name", where=tl.where)
+    else:
+        cx.ok('R-NS', 'TagLibrary has no attribute-lookup hooks', where=tl.where, function=tl.qualname)
     # tag names are caller-chosen and the module's own code resolves every name it uses (enumerate, hasattr, type, its own functions)
     # through the module globals first: nothing may bind names there at run time (a "cache" of resolved tags shadows them)
     dyn = []
